@@ -1,6 +1,8 @@
 import NibabelModel.Model.C03
 import NibabelModel.Lemmas.C03
 import NibabelModel.Lemmas.C03_EcatMain
+import NibabelModel.Lemmas.C03_Minc
+import NibabelModel.Props.C06
 /-! Props/C03 — array proxies: scaling applied pointwise; partial reads equal slicing.
     (statements + short proofs; helper lemmas live in Lemmas/C03*.lean) -/
 namespace Nb.C03
@@ -235,16 +237,116 @@ theorem ecat_frames_orig_reversed_counterexample :
     npIndex [.ellipsis, .slice ⟨none, none, some (-1)⟩] [1, 1, 1, 3] .F = .ok ([1, 1, 1, 3], [2, 1, 0]) := by
   decide
 
-/-! ### MINC — not proved (full statement kept)
+/-! ### generic `ArrayProxy`, unconditional (C06 discharged) -/
 
-  `minc_scale_alongside` (NOT PROVED; validated by the correspondence run only):
-    ∀ nscales ∈ {1, 2}, shape (C order), idx with valid slices, r, s:
-      npIndex idx shape .C = .ok r → mincScaleSlots nscales shape idx = .ok s →
-      s.1 = r.1 ∧ s.2 = r.2.map (· / (shape.drop nscales).prod)
-  i.e. `_normalize` pairs every output voxel with the `image-min`/`image-max` entry of the leading
-  (slice / frame,slice) index of its SOURCE voxel.  `mincScaleSlots` is an executable model of
-  minc1.py:191-210; the driver's output is compared with the real code on every MINC1/MINC2 case
-  (streams `minc1`, `minc2`, `minc*-scalar`), and the harness's value look-up identifies the entry
-  actually used by the library.  Missing: the C-order (`orient .C`) analogue of `gatherF_snoc`. -/
+theorem fileslice_default_eq (k : Nat) {σ} (p : Params σ) (idx : List IdxItem) (hisz : 0 < p.isz)
+    (hv : ∀ s, IdxItem.slice s ∈ idx → s.Valid) :
+    fileslice (thresholdHeuristic k) idx p.shape p.isz p.off p.flen p.order =
+      (npIndex idx p.shape p.order).map (fun r => (r.1, r.2.map Int.ofNat)) := by
+  rw [fileslice_threshold_eq_numpy k idx p.shape hv p.order p.isz p.off p.flen hisz (Nat.le_refl _)]
+
+/-- `proxy[idx] = np.asarray(proxy)[idx]`, UNCONDITIONALLY for the shipped read heuristic
+    (`threshold_heuristic`, any `skip_thresh`): every shape, both memory orders, every item size ≥ 1,
+    offset, every pointwise scaling, every basic index whose slices have non-zero step and which
+    `canonical_slicers` accepts (`hc`).  Uses C06's `fileslice_threshold_eq_numpy`. -/
+theorem getitem_eq_index_of_array_default {σ ρ β} (f : ρ → σ → σ → β) (raw : Int → ρ) (k : Nat)
+    (p : Params σ) (idx : List IdxItem) (items : List Item) (hisz : 0 < p.isz)
+    (hv : ∀ s, IdxItem.slice s ∈ idx → s.Valid)
+    (hc : canonLoop false idx p.shape = .ok items) :
+    getScaled f raw (thresholdHeuristic k) p idx =
+      (npIndex idx p.shape p.order).map (fun r => (r.1, r.2.map (scaledElem f raw p))) :=
+  getitem_eq_index_of_array f raw _ p idx items hc (fun _ => fileslice_default_eq k p idx hisz hv)
+
+/-- … and without `hc`, up to the KIND of exception: whenever NumPy indexing of the loaded array
+    succeeds the proxy returns exactly that, and whenever it raises the proxy raises too. -/
+theorem getitem_eq_index_of_array_total {σ ρ β} (f : ρ → σ → σ → β) (raw : Int → ρ) (k : Nat)
+    (p : Params σ) (idx : List IdxItem) (hisz : 0 < p.isz)
+    (hv : ∀ s, IdxItem.slice s ∈ idx → s.Valid) :
+    (getScaled f raw (thresholdHeuristic k) p idx).toOption =
+      ((npIndex idx p.shape p.order).map (fun r => (r.1, r.2.map (scaledElem f raw p)))).toOption := by
+  cases hc : canonLoop false idx p.shape with
+  | ok items => rw [getitem_eq_index_of_array_default f raw k p idx items hisz hv hc]
+  | error e =>
+      have hl : getScaled f raw (thresholdHeuristic k) p idx = .error e := by
+        simp [getScaled, getUnscaled, hc, Except.map]
+      rw [hl]
+      cases hn : npIndex idx p.shape p.order with
+      | error e' => rfl
+      | ok r =>
+          exfalso
+          unfold npIndex at hn
+          cases ht : canonicalSlicers idx p.shape with
+          | error e'' => simp [ht, bind, Except.bind] at hn
+          | ok its =>
+              obtain ⟨its', h'⟩ := canonLoop_false_ok idx p.shape its ht
+              rw [hc] at h'; cases h'
+
+example : getScaled (fun (x s i : Int) => x * s + i) id (thresholdHeuristic 256)
+    (⟨[2, 3], 2, 352, .F, 2, 1⟩ : Params Int) [.int 1, .slice ⟨none, none, some (-1)⟩] =
+    .ok ([3], [11, 7, 3]) := by decide
+
+/-! ### PAR/REC, every slice order -/
+
+/-- `PARRECArrayProxy._get_unscaled(idx)` for EVERY list of sorted slice indices (sequential or
+    not, i.e. fast `fileslice` path or slow "reorder everything, then index" path) and every basic
+    index: output element `k` is REC element `recElem S indices src[k]` = in-slice position
+    `src[k] % S` of REC slice `indices[src[k] / S]`, where `src = npIndex idx shape`.  So both paths
+    are "gather by the index list, then index", and they agree where both apply. -/
+theorem parrec_unscaled_eq (k S isz : Nat) (indices : List Nat) (shape : List Nat) (idx : List IdxItem)
+    (hisz : 0 < isz) (hshape : shape.prod = S * indices.length)
+    (hv : ∀ s, IdxItem.slice s ∈ idx → s.Valid) :
+    parrecUnscaled (thresholdHeuristic k) shape isz S indices idx =
+      (npIndex idx shape .F).map (fun r => (r.1, r.2.map (fun q => Int.ofNat (recElem S indices q)))) := by
+  unfold parrecUnscaled
+  by_cases h0 : idx = []
+  · subst h0
+    rw [npIndex_whole [] shape .F rfl]
+    simp only [if_true, Except.map, parrecWhole_eq, hshape, List.map_map]
+    rfl
+  · simp only [h0, if_false]
+    by_cases hseq : isSequential indices = true
+    · simp only [hseq, Bool.not_true, Bool.false_eq_true, if_false]
+      have hi : indices = List.range indices.length := by
+        unfold isSequential at hseq; exact eq_of_beq hseq
+      have := fileslice_threshold_eq_numpy k idx shape hv .F isz 0 (isz * shape.prod) hisz (by omega)
+      rw [this]
+      cases hn : npIndex idx shape .F with
+      | error e => rfl
+      | ok r =>
+          simp only [Except.map, Except.ok.injEq, Prod.mk.injEq, true_and]
+          apply List.map_congr_left
+          intro q hq
+          have hlt := npIndex_lt idx shape r hv hn q hq
+          rw [hi, recElem_range S indices.length q (by rw [← hshape]; exact hlt)]
+    · simp only [hseq, Bool.not_false, if_true, bind, Except.bind]
+      cases hn : npIndex idx shape .F with
+      | error e => rfl
+      | ok r =>
+          simp only [pure, Except.pure, Except.map, Except.ok.injEq, Prod.mk.injEq, true_and]
+          apply List.map_congr_left
+          intro q hq
+          have hlt := npIndex_lt idx shape r hv hn q hq
+          rw [parrecWhole_getD S indices q (by rw [← hshape]; exact hlt)]
+
+example : parrecUnscaled (thresholdHeuristic 256) [2, 1, 3] 2 2 [2, 0, 1] [.ellipsis, .int 0] =
+    .ok ([2, 1], [4, 5]) := by decide
+
+/-! ### MINC -/
+
+/-- `Minc1File._normalize` slices `image-min`/`image-max` alongside the data: for every basic index
+    (ints and slices of any sign on every axis incl. the scaled leading axes, Ellipsis, new axes
+    anywhere) on which NumPy indexing succeeds, the entry NumPy broadcasting pairs with output voxel
+    `k` is entry `src[k] / ∏ shape[nscales:]` — the leading (slice, or frame+slice) index of the
+    voxel's SOURCE voxel — and the shape checks of the model (= broadcasting being legal) pass.
+    C order; `nscales` = number of leading axes `image-max` varies over (the code admits 0, 1, 2). -/
+theorem minc_scale_alongside (nscales : Nat) (shape : List Nat) (idx : List IdxItem)
+    (hn : nscales ≤ shape.length) (hv : ∀ s, IdxItem.slice s ∈ idx → s.Valid)
+    (r : List Nat × List Nat) (hnp : npIndex idx shape .C = .ok r) :
+    mincScaleSlots nscales shape idx = .ok (r.1, r.2.map (· / (shape.drop nscales).prod)) :=
+  minc_scale_alongside' nscales shape idx hn hv r hnp
+
+example : npIndex [.int 1, .newaxis, .slice ⟨none, none, some (-1)⟩] [2, 2, 2] .C = .ok ([1, 2, 2], [6, 7, 4, 5]) ∧
+    mincScaleSlots 2 [2, 2, 2] [.int 1, .newaxis, .slice ⟨none, none, some (-1)⟩] = .ok ([1, 2, 2], [3, 3, 2, 2]) := by
+  decide
 
 end Nb.C03
